@@ -28,6 +28,14 @@ def cases(tier: str):
                 for debug_on in (False, True):
                     kmax = 2 if n <= 3 else (1 if q else 2)
                     yield dict(kind="sel", n=n, es=es, debug=list(dbg), debug_on=debug_on, kmax=kmax)
+            # debug nodes whose parents include a setup node that has NOT run yet: selections by the production parents
+            if 3 <= n <= 4:
+                for dbg in valid:
+                    for s0 in range(n):
+                        if s0 in dbg or any(b == s0 for (a, b) in es) or not any(a == s0 and b in dbg for (a, b) in es):
+                            continue
+                        for debug_on in (True,):
+                            yield dict(kind="sel", n=n, es=es, debug=list(dbg), setup=[s0], debug_on=debug_on, kmax=1, fresh_each=True)
             # setup() with debug nodes downstream of setup nodes
             if n >= 2 and n <= 3:
                 for dbg in valid:
@@ -151,6 +159,8 @@ def sel_case(acc, c):
                     if Ri is None and Xi is None and Ti is None:
                         continue
                     R, X, T = ([f"n{i}" for i in s] if s is not None else None for s in (Ri, Xi, Ti))
+                    if c.get("fresh_each"):
+                        d, ns = build_gprog(p)  # the setup node must not have run before this selection
                     k = evaluate(acc, c, d, ns, p, R, X, T, debug_on=c["debug_on"], check_id="C13")
                     stats[k] = stats.get(k, 0) + 1
                     named = set(Ri or ()) | set(Xi or ()) | set(Ti or ())
